@@ -335,8 +335,10 @@ TRUSTED_BASE = [
     "the f32 operations of the slot distribution are modelled by hand (F32.v: round to nearest even on non-negative operands, "
     "NaN/infinity explicit; not Flocq, hence no real-number axioms) and compared with the hardware's operations bit by bit",
     "reference resolution (identifier -> index) is RawLoad.resolve in Coq; the Python encoder only interns identifier strings "
-    "as integers and converts ISO times to seconds",
-    "not modelled: serde parsing and ISO time formatting, machine integer widths other than the i64 guard of the flow "
+    "as integers; ISO time strings are converted to the model's seconds by the extracted Cal.parse_datetime (gen/timeconv.py "
+    "asks the driver), Cal.v (rapid_time's DateTime::new, calendar conversions, as_iso, TimePoint + / - / order) is compared "
+    "with rapid_time itself on every C17 / C03 run (family time)",
+    "not modelled: serde parsing, machine integer widths other than the i64 guard of the flow "
     "network (FlowGuard.v; elsewhere Z, debug builds run with overflow checks), threads, sockets, OS",
 ]
 
@@ -399,7 +401,7 @@ def known_match(pid, what, detail, kf):
 
 def conclude_diff(pid, tier, seed, t0, proof, results, check_impl, features, strip_model_prefixes=(),
                   model_flags=None, what="", extra_cov=None, level="proof", check_pair=None, extra_violations=None,
-                  diff_to_failure=None, extra_violations_inst=None):
+                  diff_to_failure=None, extra_violations_inst=None, extra_diffs=None):
     """Common verdict logic for model-vs-implementation line comparisons.
     results: list of dict(k, inst, hstatus, dstatus, impl, model)."""
     kf = load_known_findings()
@@ -453,6 +455,8 @@ def conclude_diff(pid, tier, seed, t0, proof, results, check_impl, features, str
                 violations.append((w, r, detail))
         if len(samples) < 2 and len(r["impl"]) > 3:
             samples.append({"instance": r["inst"], "observations_head": r["impl"][:6]})
+    for (case_, msg_) in (extra_diffs or []):
+        diffs.append(({"inst": case_}, msg_))
     for (w, detail, inst_) in (extra_violations_inst or []):
         e = known_match(pid, w, detail, kf)
         if e:
@@ -516,7 +520,7 @@ def conclude_diff(pid, tier, seed, t0, proof, results, check_impl, features, str
         cov.update(extra_cov)
     write_evidence(pid, tier, seed, level, cov,
                    ["model = hand-written Gallina mirror; correspondence on generated cases bounds model/code distance",
-                    "times enter the model as seconds (calendar conversion not modelled)",
+                    "ISO time strings are converted by the extracted Cal.v (DateTime::new, calendar, as_iso modelled and compared with rapid_time on every C17 / C03 run); serde parsing itself is not modelled",
                     "machine integers modelled as Z (no overflow below validity bounds)"],
                    time.time() - t0, len(violations) + (1 if diffs else 0))
     for l in lines:
